@@ -1,7 +1,7 @@
 (** C16 — store writes notify exactly the fields on the written path.
     Statements only; proofs live in Store/PathsProofs.v and Store/KeyedProofs.v. *)
-From Coq Require Import List Arith Bool.
-From LV Require Import Store.Paths Store.PathsProofs.
+From Coq Require Import List Arith Bool ZArith.
+From LV Require Import Store.Paths Store.PathsProofs Store.Keyed Store.KeyedProofs.
 Import ListNotations.
 
 (** a write through the field at path p wakes a reader of the field at path r iff one of the
@@ -45,3 +45,67 @@ Theorem C16_ancestors_before_descendants :
     i1 <= i2 /\ (is_prefix r1 p = true -> length r1 < length r2 -> i1 < i2).
 Proof. exact ancestors_before_descendants. Qed.
 Print Assumptions C16_ancestors_before_descendants.
+
+(** ---- keyed collections: FieldKeys, over all histories of insert / remove / reorder and
+    all visiting orders of its hash maps (the lists of choices cs / c1 / c2) ---- *)
+
+(** two live keys never share a path segment *)
+Theorem C16_slots_injective :
+  forall h0 h cs k1 k2 s i1 i2,
+    NoDup h0 -> Forall (@NoDup key) h ->
+    fk_get k1 (fk_history cs (fk_new h0) h) = Some (s, i1) ->
+    fk_get k2 (fk_history cs (fk_new h0) h) = Some (s, i2) ->
+    k1 = k2.
+Proof. exact slots_injective_all_histories. Qed.
+Print Assumptions C16_slots_injective.
+
+(** the invariant behind it (keys distinct, live and spare segments pairwise distinct and
+    bounded by the counter) holds initially and is preserved by every update *)
+Theorem C16_keys_invariant :
+  forall h cs f, fk_wf f -> Forall (@NoDup key) h -> fk_wf (fk_history cs f h).
+Proof. exact fk_history_wf. Qed.
+Print Assumptions C16_keys_invariant.
+
+Theorem C16_keys_invariant_initially : forall ks, NoDup ks -> fk_wf (fk_new ks).
+Proof. exact fk_new_wf. Qed.
+Print Assumptions C16_keys_invariant_initially.
+
+(** a reader keeps following its key across reorders: while the key stays in the collection
+    its path segment is unchanged, and its index is its current position *)
+Theorem C16_reader_follows_key :
+  forall c1 c2 f latest, fk_wf f -> NoDup latest ->
+  forall k s i i', fk_get k f = Some (s, i) -> nth_error latest i' = Some k ->
+    fk_get k (fk_update c1 c2 f latest) = Some (s, i').
+Proof. exact key_segment_stable. Qed.
+Print Assumptions C16_reader_follows_key.
+
+(** every recorded index is the position of its key: AtKeyed reads and writes the item
+    that carries the reader's key *)
+Theorem C16_index_is_position :
+  forall c1 c2 f latest, fk_wf f -> NoDup latest ->
+  forall k s i, fk_get k (fk_update c1 c2 f latest) = Some (s, i) -> nth_error latest i = Some k.
+Proof. exact index_is_position. Qed.
+Print Assumptions C16_index_is_position.
+
+(** a removed key is dropped *)
+Theorem C16_removed_key_dropped :
+  forall c1 c2 f latest, fk_wf f -> NoDup latest ->
+  forall k, ~ In k latest -> fk_get k (fk_update c1 c2 f latest) = None.
+Proof. exact key_dropped. Qed.
+Print Assumptions C16_removed_key_dropped.
+
+(** hence the items of two different live keys never wake each other's readers *)
+Theorem C16_keyed_items_independent :
+  forall f k1 k2 s1 s2 i1 i2 p t1 t2,
+    fk_wf f -> k1 <> k2 -> fk_get k1 f = Some (s1, i1) -> fk_get k2 f = Some (s2, i2) ->
+    wakes (p ++ s1 :: t1) (p ++ s2 :: t2) = false.
+Proof. exact keyed_items_independent. Qed.
+Print Assumptions C16_keyed_items_independent.
+
+(** FieldKeys::new as it was before the repair 8ee08c9 (current_key: 0) violated
+    slots_injective: after adding key 20 to [7; 8; 9], keys 8 and 20 share segment 1 *)
+Theorem C16_slots_injective_prefix_refuted :
+  let f := fk_update [] [] (fk_new_prefix [7; 8; 9]%Z) [7; 8; 9; 20]%Z in
+  fk_get 8%Z f = Some (1, 1) /\ fk_get 20%Z f = Some (1, 3).
+Proof. exact slots_injective_prefix_refuted. Qed.
+Print Assumptions C16_slots_injective_prefix_refuted.
